@@ -130,10 +130,10 @@ def run(ctx: core.Ctx) -> int:
                    msg=f"decision is taken on  {fi!r}  instead of  z - h(x)")
         ctx.oblige("ARGS", c["where"], f"S_inv arg = {fs!r}", fs == S.inv(), file=PY, func=sq, construct="remove_innovation arg S_inv",
                    msg=f"decision is taken with  {fs!r}  instead of  Inv(H.P.H^T + Q)")
-    ev = [e for e in it.events if e["func"] == sq]
+    ev = scenarios.events_of(it, sq)
     rec = [e for e in ev if e["kind"] == "store" and "innovations" in e.get("target", "")]
     rets = [e for e in ev if e["kind"] == "return"]
-    early = [e for e in rets if any("remove_innovation" in ast.unparse(t) and pol for t, pol, _ in e["path"])]
+    early = [e for e in rets if any("remove_innovation" in ast.unparse(t) and pol for t, pol, _ in e["rpath"])]
     late = [e for e in rets if e not in early]
     ctx.floor("EARLY", len(early), 1, "rejection return paths in sensor_model")
     for e in early:
@@ -141,14 +141,14 @@ def run(ctx: core.Ctx) -> int:
         okv = isinstance(v, TupleV) and len(v.items) == 2 and _is_input(v.items[0], "x") and _is_input(v.items[1], "P")
         ctx.oblige("EARLY", f"{PY}:{sq}", f"rejection returns {v!r}", okv, file=PY, func=sq, construct="rejection return",
                    msg=f"on rejection sensor_model returns {_short(v)}, not its own (state, covariance) arguments", line=e["line"])
-        okr = any(r["seq"] < e["seq"] and not r["path"] for r in rec)
+        okr = any(r["seq"] < e["seq"] and not r["rpath"] for r in rec)
         ctx.oblige("EARLY", f"{PY}:{sq}", "innovation recorded before the rejection return", okr, file=PY, func=sq,
                    construct="record before decision", msg="the innovation is not recorded (unconditionally) before the rejection return",
                    line=e["line"])
-        if len(e["path"]) != 1:
+        if len(e["rpath"]) != 1:
             ctx.oblige("EARLY", f"{PY}:{sq}", "rejection guarded only by the decision", False, file=PY, func=sq,
                        construct="rejection guard", msg="the rejection return is guarded by more than the filter decision: "
-                       + " and ".join(ast.unparse(t) for t, _, _ in e["path"]), line=e["line"])
+                       + " and ".join(ast.unparse(t) for t, _, _ in e["rpath"]), line=e["line"])
     for e in late:
         v = e["value"]
         if isinstance(v, TupleV) and len(v.items) == 2 and _is_input(v.items[0], "x") and _is_input(v.items[1], "P"):
